@@ -6,6 +6,7 @@ package zzvv
 
 import (
 	"os"
+	"reflect"
 	"strings"
 )
 
@@ -54,3 +55,16 @@ func Known(id string, cond bool) bool { return active[id] && cond }
 
 // Epoch marks the boundary after which writes to previously allocated memory are monitored.
 func Epoch() {}
+
+// IsNil reports whether x is a nil interface or holds a nil pointer.
+func IsNil(x any) bool {
+	if x == nil {
+		return true
+	}
+	rv := reflect.ValueOf(x)
+	switch rv.Kind() {
+	case reflect.Ptr, reflect.Map, reflect.Slice, reflect.Func, reflect.Interface, reflect.Chan:
+		return rv.IsNil()
+	}
+	return false
+}
